@@ -25,9 +25,10 @@ func stripNot(v ssa.Value) (ssa.Value, bool) {
 }
 
 type pathRow struct {
-	P       *Path
-	Atoms   map[string]bool // atom -> value on this path (only atoms the path decided)
-	Unknown int             // number of decisions on unrecognised conditions
+	P        *Path
+	Atoms    map[string]bool // atom -> value on this path (only atoms the path decided)
+	Unknown  int             // number of decisions on unrecognised conditions
+	Conflict bool            // the path decides one atom both ways: infeasible
 }
 
 // classifyFn maps a (negation-stripped) branch condition to an atom name ("" = unrecognised).
@@ -52,7 +53,9 @@ func iterationPaths(loop *Loop, classify classifyFn) ([]pathRow, bool) {
 		if !p.Feasible() {
 			continue
 		}
-		rows = append(rows, classifyPath(p, classify))
+		if row := classifyPath(p, classify); !row.Conflict {
+			rows = append(rows, row)
+		}
 	}
 	return rows, trunc
 }
@@ -65,7 +68,9 @@ func regionPaths(start *ssa.BasicBlock, stop func(*ssa.BasicBlock) bool, classif
 		if p.End == EndCycle || !p.Feasible() {
 			continue
 		}
-		rows = append(rows, classifyPath(p, classify))
+		if row := classifyPath(p, classify); !row.Conflict {
+			rows = append(rows, row)
+		}
 	}
 	return rows, trunc
 }
@@ -79,7 +84,11 @@ func classifyPath(p *Path, classify classifyFn) pathRow {
 			row.Unknown++
 			continue
 		}
-		row.Atoms[name] = d.Taken != (neg != inv)
+		val := d.Taken != (neg != inv)
+		if prev, seen := row.Atoms[name]; seen && prev != val {
+			row.Conflict = true
+		}
+		row.Atoms[name] = val
 	}
 	return row
 }
